@@ -486,6 +486,38 @@ Proof.
 Qed.
 Print Assumptions number_of_symbols_pos.
 
+(* max() / the generator of per-chunk versions *)
+Lemma max_list_In l : forall m, max_list l = Ok m -> In m l /\ Forall (fun v => v <= m) l.
+Proof.
+  induction l as [|x r IH]; intros m H; [discriminate H|].
+  destruct r as [|y r'].
+  - cbn [max_list] in H. apply Ok_inj in H. subst m. split; [now left|constructor; [lia|constructor]].
+  - change (max_list (x :: y :: r')) with (do m' <- max_list (y :: r'); Ok (Z.max x m')) in H.
+    bind_ok H Em m'. apply Ok_inj in H. subst m. destruct (IH m' eq_refl) as [Hin Hall].
+    split.
+    + destruct (Z.max_spec x m') as [[_ ->]|[_ ->]]; [now right|now left].
+    + constructor; [lia|]. eapply Forall_impl; [|exact Hall]. cbv beta. intros v Hv. lia.
+Qed.
+
+Lemma seq_res_map_Forall2 {A B} (f : A -> res B) : forall l vs,
+  seq_res (map f l) = Ok vs -> Forall2 (fun x v => f x = Ok v) l vs.
+Proof.
+  induction l as [|x r IH]; intros vs H; cbn [map seq_res] in H.
+  - apply Ok_inj in H. subst vs. constructor.
+  - bind_ok H Ex v. bind_ok H Er rest. apply Ok_inj in H. subst vs. constructor; [exact Ex|apply IH; reflexivity].
+Qed.
+
+Lemma seq_res_map_In {A B} (f : A -> res B) l vs :
+  seq_res (map f l) = Ok vs -> forall v, In v vs -> exists x, In x l /\ f x = Ok v.
+Proof.
+  intros H. apply seq_res_map_Forall2 in H. induction H as [|x v l vs Hx _ IH]; intros w Hw; [destruct Hw|].
+  destruct Hw as [<-|Hw]; [exists x; split; [now left|exact Hx]|].
+  destruct (IH w Hw) as (y & Hy & Hfy). exists y. split; [now right|exact Hfy].
+Qed.
+
+Lemma chunk_version_qr smode encoding error eci c v : chunk_version smode encoding error eci c = Ok v -> 1 <= v <= 40.
+Proof. unfold chunk_version. intros H. bind_ok H Es sg. exact (find_version_qr _ _ _ _ _ H). Qed.
+
 (* ------------------------------------------------------------------------------------------ *)
 (* 3b. the shape of encode_sequence                                                           *)
 (* ------------------------------------------------------------------------------------------ *)
@@ -546,9 +578,9 @@ Theorem encode_sequence_shape content error version mode mask encoding eci boost
             | None => Ok (match symbol_count with Some n => n | None => 16 end) end) = Ok num /\
            1 <= num <= 16 /\
            (match symbol_count with
-            | Some _ => exists c sg, longest_first (divide_into_chunks content' num) None = Some c /\
-                          one_item_segments c smode encoding' = Ok sg /\
-                          find_version sg (eff_error error) eci (Some false) true = Ok version'
+            | Some _ => exists vs, seq_res (map (chunk_version smode encoding' (eff_error error) eci)
+                                                (divide_into_chunks content' num)) = Ok vs /\
+                                   max_list vs = Ok version'
             | None => version = Some version' end) /\
            encode_chunks (divide_into_chunks content' num) 0 (num - 1) (xor_bytes pbytes) smode encoding'
                          (eff_error error) version' mask' eci boost = Ok codes.
@@ -598,8 +630,7 @@ Proof.
   split; [exact Eeff|]. split; [exact Ebytes|]. split; [exact Hne|]. split; [exact Enum|]. split; [exact Hnum|].
   split.
   { destruct symbol_count as [n|].
-    - destruct (longest_first (divide_into_chunks content' num) None) as [c|]; [|discriminate Ever].
-      bind_ok Ever Esg sg. exists c, sg. split; [reflexivity|]. split; [exact Esg|exact Ever].
+    - bind_ok Ever Evs vs. exists vs. split; [reflexivity|exact Ever].
     - destruct version as [v|]; [|discriminate Ever]. now apply Ok_inj in Ever; subst version'. }
   replace (num - 1) with (lenZ (divide_into_chunks content' num) - 1); [exact H|].
   unfold lenZ. rewrite schunks_count. lia.
@@ -656,7 +687,10 @@ Proof.
     apply Ok_inj in Hnum. now subst n.
   - intros ->. exact Hver.
   - destruct symbol_count as [n|].
-    + destruct Hver as (c & sg & _ & _ & Hfv). apply find_version_qr in Hfv. lia.
+    + destruct Hver as (vs & Hvs & Hmax).
+      destruct (max_list_In _ _ Hmax) as [Hin _].
+      destruct (seq_res_map_In _ _ _ Hvs _ Hin) as (c & _ & Hc).
+      apply chunk_version_qr in Hc. lia.
     + apply Hv. exact Hver.
 Qed.
 Print Assumptions encode_sequence_multi_shape.
@@ -1047,6 +1081,188 @@ Proof.
     intros cap0 Hcap0. unfold chunk_overflows in Hc. rewrite Es, Hl, Hcap0 in Hc. lia.
 Qed.
 Print Assumptions seq_fits_partial.
+
+(* 6a'. symbol_count=k: EVERY chunk fits.  The version of all symbols is the highest version any chunk needs with its
+   header (find_version per chunk); a chunk that fits version v at level e also fits every version w >= v at that level:
+   from one QR version to the next the capacity grows at least as much as the character count indicator (table sweep). *)
+Definition cci_at (m v : Z) : res Z := do vr <- version_range v; cci_length m vr.
+
+Lemma slack_step_all :
+  forallb (fun v => forallb (fun e => forallb (fun m =>
+     match capacity v (Some e), cci_at m v with
+     | Ok c, Ok k => match capacity (v + 1) (Some e), cci_at m (v + 1) with
+                     | Ok c', Ok k' => c - k <=? c' - k'
+                     | _, _ => false end
+     | _, _ => true end) [1; 2; 4; 8; 13]) [0; 1; 2; 3]) (zrange 1 40) = true.
+Proof. vm_compute. reflexivity. Qed.
+
+Lemma level_keys_all :
+  forallb (fun row : Z * list (option Z * Z) =>
+             forallb (fun kv : option Z * Z => match fst kv with Some e => memZ e [0; 1; 2; 3] | None => true end) (snd row))
+          SYMBOL_CAPACITY = true.
+Proof. vm_compute. reflexivity. Qed.
+
+Lemma cci_mode_keys : map fst CHAR_COUNT_INDICATOR_LENGTH = [1; 2; 4; 8; 13].
+Proof. vm_compute. reflexivity. Qed.
+
+Lemma assocOZ_Some_In {A} e (l : list (option Z * A)) c : assocOZ (Some e) l = Some c -> In (Some e, c) l.
+Proof.
+  induction l as [|[k' v'] r IH]; cbn [assocOZ]; intros H; [discriminate H|].
+  destruct (oz_eqb (Some e) k') eqn:E.
+  - injection H as <-. destruct k' as [e'|]; [|discriminate E]. cbn [oz_eqb] in E. left. f_equal. f_equal. lia.
+  - right. auto.
+Qed.
+
+Lemma capacity_level_key v e c : capacity v (Some e) = Ok c -> In e [0; 1; 2; 3].
+Proof.
+  unfold capacity, getZ, getOZ. intros H.
+  destruct (assocZ v SYMBOL_CAPACITY) as [row|] eqn:Er; cbn [bind] in H; [|discriminate H].
+  destruct (assocOZ (Some e) row) as [c'|] eqn:Ec; [|discriminate H].
+  apply assocZ_In in Er. apply assocOZ_Some_In in Ec.
+  pose proof level_keys_all as Hall. rewrite forallb_forall in Hall.
+  specialize (Hall _ Er). cbn [snd] in Hall. rewrite forallb_forall in Hall.
+  specialize (Hall _ Ec). cbn [fst] in Hall. unfold memZ in Hall. cbn [existsb] in Hall.
+  cbn [In]. lia.
+Qed.
+
+Lemma cci_mode_key m vr k : cci_length m vr = Ok k -> In m [1; 2; 4; 8; 13].
+Proof.
+  unfold cci_length, getZ. intros H.
+  destruct (assocZ m CHAR_COUNT_INDICATOR_LENGTH) as [row|] eqn:Er; cbn [bind] in H; [|discriminate H].
+  apply assocZ_In in Er. rewrite <- cci_mode_keys. change m with (fst (m, row)). now apply in_map.
+Qed.
+
+Lemma slack_step v e m c k : 1 <= v < 40 ->
+  capacity v (Some e) = Ok c -> cci_at m v = Ok k ->
+  exists c' k', capacity (v + 1) (Some e) = Ok c' /\ cci_at m (v + 1) = Ok k' /\ c - k <= c' - k'.
+Proof.
+  intros Hv Hc Hk.
+  pose proof (capacity_level_key _ _ _ Hc) as He.
+  assert (Hm : In m [1; 2; 4; 8; 13]).
+  { unfold cci_at in Hk. destruct (version_range v) as [vr|]; cbn [bind] in Hk; [|discriminate Hk].
+    exact (cci_mode_key _ _ _ Hk). }
+  pose proof slack_step_all as Hall. rewrite forallb_forall in Hall.
+  specialize (Hall v (zrange_In 1 40 v ltac:(lia))). cbv beta in Hall. rewrite forallb_forall in Hall.
+  specialize (Hall e He). cbv beta in Hall. rewrite forallb_forall in Hall.
+  specialize (Hall m Hm). cbv beta in Hall. rewrite Hc, Hk in Hall.
+  destruct (capacity (v + 1) (Some e)) as [c'|]; [|discriminate Hall].
+  destruct (cci_at m (v + 1)) as [k'|]; [|discriminate Hall].
+  exists c', k'. repeat split. lia.
+Qed.
+
+Lemma slack_mono e m : forall (n : nat) v c k, 1 <= v -> v + Z.of_nat n <= 40 ->
+  capacity v (Some e) = Ok c -> cci_at m v = Ok k ->
+  exists c' k', capacity (v + Z.of_nat n) (Some e) = Ok c' /\ cci_at m (v + Z.of_nat n) = Ok k' /\ c - k <= c' - k'.
+Proof.
+  induction n as [|n IH]; intros v c k Hv Hw Hc Hk.
+  - rewrite Z.add_0_r. exists c, k. repeat split; try assumption. lia.
+  - destruct (slack_step v e m c k ltac:(lia) Hc Hk) as (c1 & k1 & Hc1 & Hk1 & Hle1).
+    destruct (IH (v + 1) c1 k1 ltac:(lia) ltac:(lia) Hc1 Hk1) as (c2 & k2 & Hc2 & Hk2 & Hle2).
+    replace (v + Z.of_nat (S n)) with (v + 1 + Z.of_nat n) by lia.
+    exists c2, k2. repeat split; try assumption. lia.
+Qed.
+
+(* the bit count of a single segment in a QR symbol: everything but the count indicator is independent of the version *)
+Definition single_const (s : segment) (eci is_sa : bool) : Z :=
+  (if eci then count_eci_headers [s] * 4 + count_eci_headers [s] * 8 else 0) + (if is_sa then 20 else 0)
+  + (lenZ (seg_modes [s]) * 4 + lenZ (filter (Z.eqb MODE_HANZI) (seg_modes [s])) * 4).
+
+Lemma bit_length_single s v eci is_sa : 1 <= v ->
+  bit_length_with_overhead [s] v eci is_sa
+  = do k <- cci_at (s_mode s) v; Ok (single_const s eci is_sa + k + seg_bit_length [s]).
+Proof.
+  intros Hv. unfold bit_length_with_overhead, cci_at, single_const. cbv zeta.
+  assert (E : 0 <? v = true) by lia. rewrite E.
+  destruct (version_range v) as [vr|x]; cbn [bind]; [|reflexivity].
+  change (seg_modes [s]) with [s_mode s]. cbn [map sum_res].
+  destruct (cci_length (s_mode s) vr) as [k|x]; cbn [bind]; [|reflexivity].
+  f_equal. lia.
+Qed.
+
+Lemma fit_mono_single s e eci v w l c : 1 <= v <= w -> w <= 40 ->
+  bit_length_with_overhead [s] v eci true = Ok l -> capacity v (Some e) = Ok c -> l <= c ->
+  exists l' c', bit_length_with_overhead [s] w eci true = Ok l' /\ capacity w (Some e) = Ok c' /\ l' <= c'.
+Proof.
+  intros Hvw Hw Hl Hc Hle. rewrite bit_length_single in Hl by lia.
+  destruct (cci_at (s_mode s) v) as [k|x] eqn:Ek; cbn [bind] in Hl; [|discriminate Hl]. apply Ok_inj in Hl.
+  destruct (slack_mono e (s_mode s) (Z.to_nat (w - v)) v c k ltac:(lia) ltac:(lia) Hc Ek) as (c' & k' & Hc' & Hk' & Hs).
+  replace (v + Z.of_nat (Z.to_nat (w - v))) with w in * by lia.
+  exists (single_const s eci true + k' + seg_bit_length [s]), c'.
+  split; [rewrite bit_length_single by lia; rewrite Hk'; reflexivity|]. split; [exact Hc'|lia].
+Qed.
+
+Lemma find_version_loop_fits segs eci sa vs e : forall v,
+  find_version_loop segs eci sa vs (Some e) = Ok v ->
+  exists l c, bit_length_with_overhead segs v eci sa = Ok l /\ capacity v (Some e) = Ok c /\ l <= c.
+Proof.
+  induction vs as [|x r IH]; intros v H; cbn [find_version_loop] in H; [discriminate H|].
+  cbv zeta in H.
+  destruct (capacity x (Some e)) as [cap|ex] eqn:Ec.
+  - destruct (bit_length_with_overhead segs x eci sa) as [len|ex] eqn:El.
+    + destruct (len <=? cap) eqn:E; [|exact (IH _ H)].
+      apply Ok_inj in H. subst x. exists len, cap. repeat split; try assumption. lia.
+    + destruct ex; try discriminate H. exact (IH _ H).
+  - destruct ex; try discriminate H. exact (IH _ H).
+Qed.
+
+Lemma find_version_qr_fits segs e eci sa v :
+  find_version segs (Some e) eci (Some false) sa = Ok v ->
+  exists l c, bit_length_with_overhead segs v eci sa = Ok l /\ capacity v (Some e) = Ok c /\ l <= c.
+Proof.
+  unfold find_version. cbn [otruthy]. rewrite andb_false_r. cbn [andb bind]. apply find_version_loop_fits.
+Qed.
+
+(* a chunk whose own version is at most the version of the sequence does not overflow *)
+Lemma chunk_fits_at smode encoding e eci c v w :
+  chunk_version smode encoding (Some e) eci c = Ok v -> v <= w <= 40 ->
+  chunk_overflows c smode encoding (Some e) w eci = false.
+Proof.
+  unfold chunk_version, chunk_overflows. intros H Hw.
+  destruct (one_item_segments c smode encoding) as [sg|x] eqn:Es; cbn [bind] in H; [|discriminate H].
+  pose proof (find_version_qr _ _ _ _ _ H) as Hv.
+  destruct (find_version_qr_fits _ _ _ _ _ H) as (l & cap & Hl & Hc & Hle).
+  unfold one_item_segments in Es. bind_ok Es Em s. apply Ok_inj in Es. subst sg.
+  destruct (fit_mono_single s e eci v w l cap ltac:(lia) ltac:(lia) Hl Hc Hle) as (l' & c' & Hl' & Hc' & Hle').
+  rewrite Hl', Hc'. lia.
+Qed.
+
+(* symbol_count=k (with or without a version): all symbols have one version, and every symbol's bit count -- header,
+   mode and count indicator, packed chunk -- is within the capacity at the level finally used.  No side condition:
+   this is the statement that is false on the version= path (D14, C08_refuted_fit below). *)
+Theorem seq_fits_symbol_count content error version mode mask encoding eci boost n codes :
+  encode_sequence content error version mode mask encoding eci boost (Some n) = Ok codes ->
+  exists v', 1 <= v' <= 40 /\
+    Forall (fun code => c_version code = v' /\
+              exists l cap, bit_length_with_overhead (c_segments code) v' eci true = Ok l /\
+                            capacity v' (c_error code) = Ok cap /\ l <= cap) codes.
+Proof.
+  intros H.
+  destruct (encode_sequence_shape _ _ _ _ _ _ _ _ _ _ H) as (_ & mask' & segs & _ & _ & Hshape).
+  cbn [single_path] in Hshape.
+  destruct Hshape as (smode & content' & encoding' & pbytes & pe & num & version' &
+                      _ & _ & _ & _ & _ & _ & _ & (vs & Hvs & Hmax) & Hchunks).
+  destruct (max_list_In _ _ Hmax) as [Hin Hall].
+  destruct (seq_res_map_In _ _ _ Hvs _ Hin) as (c0 & _ & Hc0). apply chunk_version_qr in Hc0.
+  exists version'. split; [exact Hc0|].
+  assert (He : exists e, eff_error error = Some e) by (destruct error as [e|]; eexists; reflexivity).
+  destruct He as [e He]. rewrite He in *.
+  pose proof (encode_chunks_versions _ _ _ _ _ _ _ _ _ _ _ _ Hchunks) as Hvers.
+  assert (Hfit : Forall (fun code => exists l cap,
+             bit_length_with_overhead (c_segments code) version' eci true = Ok l /\
+             capacity version' (c_error code) = Ok cap /\ l <= cap) codes).
+  { eapply seq_fits_partial; [exact Hchunks|]. apply forallb_forall. intros c Hc.
+    apply negb_true_iff.
+    apply seq_res_map_Forall2 in Hvs. rewrite Forall_forall in Hall.
+    assert (Hcv : exists v, chunk_version smode encoding' (Some e) eci c = Ok v /\ In v vs).
+    { clear - Hvs Hc. induction Hvs as [|x v l vs' Hx _ IH]; [destruct Hc|].
+      destruct Hc as [<-|Hc]; [exists v; split; [exact Hx|now left]|].
+      destruct (IH Hc) as (v2 & Hv2 & Hin2). exists v2. split; [exact Hv2|now right]. }
+    destruct Hcv as (v & Hv & Hvin). specialize (Hall v Hvin). cbv beta in Hall.
+    eapply chunk_fits_at; [exact Hv|lia]. }
+  rewrite Forall_forall in Hvers, Hfit. apply Forall_forall. intros code Hcode.
+  split; [exact (Hvers code Hcode)|exact (Hfit code Hcode)].
+Qed.
+Print Assumptions seq_fits_symbol_count.
 
 (* 6b. the unconditional statement is false.  Witness: 71 digits (bytes "0123456789012..."), version 1,
    level L, no boosting.  The estimate of number_of_symbols_by_version is 2 symbols (291 bits over two
